@@ -289,6 +289,8 @@ def run(ctx):
                         "N-int: integer-typed inputs hold values of magnitude <= 2**29 in int64 arrays, fewer than 2**20 points",
                         "numpy element-wise / reduction semantics per kverif.npmodel"]
     res.not_decided += ["floating-point rounding", "behaviour at degenerate denominators (coincident Menger points, zero-length chord for the perpendicular distance)"]
+    from .common import hidden_state as _hidden_state
+    _hidden_state(rc, "H1", sorted(INT_SHAPES) + ["linear_fit.perpendicular_distance_index"], "geometric primitives")
     res.require_instances("C17 programs compared", programs, 11)
 
 
